@@ -363,6 +363,10 @@ var c08Odd = []string{
 	"@use(\"\")", "@component(\"\")", "@insert(\"\")x@end", "@reserve(\"\")", "@insert({a: 1})x@end", "@reserve([1])", "@use(1)", "@slot(1)",
 	"@each(1 in [1])x@end", "@each([v] in [1])x@end", "@for(1; 2; 3)x@break@end", "{{ 1.2.3 }}", "{{ a..b }}", "{{ a.1 }}", "{{ [1,,2] }}", "{{ {a:: 1} }}",
 	"{{ {1: 2} }}", "{{ {\"k\": 1} }}", "{{ f(1) }}", "{{ 1(2) }}", "{{ \"s\"() }}", "{{ a.b.c.d.e() }}", "{{ ((((1)))) }}", "{{ -!-!1 }}", "{{ 1 ? 2 ? 3 : 4 : 5 }}",
+	// a directive argument that is an expression with an operand missing somewhere inside it
+	"@component(\"c\", [,])", "@component(\"c\", [1, *])", "@component(\"c\", [[,]])", "@component(\"c\", a.f(,))", "@component(\"c\", a[*])",
+	"@component(\"c\", {k: [,]})", "@insert(\"x\", [,])", "@insert(\"x\", a[*])", "@each(v in [,])x@end", "@if([1, *])x@end", "@use([,])", "@reserve(a[*])",
+	"{{ [,] }}", "{{ a.f(,) }}", "{{ a[*] }}", "@breakIf([,])", "@for(i = [,]; a[*]; a.f(,))x@end", "@dump([,], a[*])",
 }
 
 // HarnessC08Odd: complete inputs of unusual shape - well-formed pieces combined in places where something else is
